@@ -157,7 +157,30 @@ def gen_s1(seed, corpus, ref, instr_frac=0.1, sa_frac=0.0):
             c = rng.randrange(ncl)
             oi = rng.randrange(len(clients[c]))
             spec['gcs_at'].append([c, oi, rng.randint(1, _ev(ref, clients[c][oi], gran))])
+    if rng.random() < AGED_FRAC[0]:
+        spec['pre'] = gen_prehistory(rng, corpus, sub)
     return spec
+
+
+AGED_FRAC = [0.12]
+
+
+def gen_prehistory(rng, corpus, sub):
+    """An 'aged process': ops that the process has served, single-threaded and without event delivery, BEFORE the
+    simulated clients start.  Whatever a long-running server accumulates (memo tables near their capacity, lazily filled
+    registries, counters) is then in place when the threads meet.  Drawn from the run's own sub-corpus (the same keys),
+    the pool, and -- in half of the cases -- the wide inputs, whose many distinct names fill anything with a capacity."""
+    pool = corpus['pool']
+    n = rng.choice([20, 40, 80, 160])
+    src = _light_ops(list(sub)) + [pool[rng.randrange(len(pool))] for _ in range(n)]
+    src = _light_ops(src)
+    pre = [src[rng.randrange(len(src))] for _ in range(n)]
+    wide = [op for op in corpus['families'].get('wide_inputs', []) if op.get('ast', '').startswith('wide_') or 'wp' in op.get('sql', '') or "'s" in op.get('sql', '')]
+    wide = [op for op in wide if (_HINTS.get(O.op_key(op)) or ['ok', 0])[1] <= 400000]
+    if wide and rng.random() < 0.5:
+        for _ in range(rng.randint(1, 6)):
+            pre.insert(rng.randrange(len(pre) + 1), wide[rng.randrange(len(wide))])
+    return pre
 
 
 def gen_s2(seed, corpus, ref):
@@ -203,6 +226,10 @@ def attach(spec, ref, probes):
     f = INSTR_FACTOR if spec.get('gran') == 'instr' else 1.0
     if 'sqlalchemy' in spec.get('scope', []):
         f *= 12
+    for op in spec.get('pre') or []:
+        k = O.op_key(op)
+        if k in ref:
+            exp[k] = ref[k]['dg']
     for cl in spec['clients']:
         for op in cl:
             k = O.op_key(op)
@@ -335,3 +362,46 @@ def gen_family_history(seed, corpus, fam):
         'clients': [lst + second], 'gran': 'line', 'scope': ['repo'], 'cat_mode': 'shared', 'rnd_mode': 'shared', 'meta_share': True,
         'strategy': {'kind': 'none'}, 'sched_seed': 0, 'faults': [], 'gcs_at': [], 'lazy_events': True, 'long': True, 'famhist': True,
     }
+
+
+RENDER_NAMES = ['mysql', 'postgresql', 'postgres', 'sqlite', 'mssql', 'oracle', 'Snowflake']
+
+
+def gen_tree_histories(seed, corpus, quick):
+    """One tree, every renderer: a caller that parses a statement once and renders the same tree object for several back
+    ends (MindsDB does, when a query goes to more than one integration).  Systematic: the distinct render statements of the
+    corpus families (quick tier: the DDL / type / statement-kind classes whole plus a seeded sample of the others; thorough:
+    all of them), six per history, each rendered under every dialect name in a shuffled order, interleaved, on ONE shared tree
+    per statement, single client, no event delivery.  What one renderer does to the tree it is given must not show in what
+    the next one produces from it."""
+    rng = random.Random('C20/TREEHIST/%d' % seed)
+    whole_cls = ('render_types', 'render_ddl', 'render_kinds', 'render_edits_tree', 'render_built', 'render_custom_dialect')
+    first, rest, seen = [], [], set()
+    for f in sorted(corpus['families']):
+        for op in _light_ops(corpus['families'][f]):
+            if op.get('k') != 'render' or op.get('wp'):
+                continue
+            key = (op.get('d'), op.get('sql'), op.get('ast'))
+            if key in seen:
+                continue
+            seen.add(key)
+            (first if f.startswith(whole_cls) else rest).append(op)
+    rng.shuffle(rest)
+    stmts = first + (rest[:60] if quick else rest)
+    rng.shuffle(stmts)
+    out = []
+    for i in range(0, len(stmts), 6):
+        ops = []
+        for op in stmts[i:i + 6]:
+            for rd in RENDER_NAMES:
+                o = {k: v for k, v in op.items() if k in ('k', 'd', 'sql', 'ast')}
+                o['rd'] = rd
+                o['fb'] = True
+                ops.append(o)
+        rng.shuffle(ops)
+        out.append({
+            'cmd': 'sim', 'property': 'C20', 'sub': 'S2', 'seed': seed + len(out), 'hashseed': hashseed_for(seed + len(out)), 'families': ['treehist'],
+            'clients': [ops], 'gran': 'line', 'scope': ['repo'], 'cat_mode': 'shared', 'rnd_mode': rng.choice(['shared', 'op']), 'meta_share': True,
+            'tree_share': True, 'strategy': {'kind': 'none'}, 'sched_seed': 0, 'faults': [], 'gcs_at': [], 'lazy_events': True, 'long': True, 'treehist': True,
+        })
+    return out
